@@ -30,6 +30,10 @@ class ProbeError(Exception):
     pass
 
 
+class ScopeError(Exception):
+    """a program called a decorated function whose def was never executed (generator / shrinker artefact)"""
+
+
 class MarkA(Funsor):
     def __init__(self, name):
         super().__init__(OrderedDict([(name, Real)]), Real, frozenset({name}))
@@ -181,6 +185,7 @@ class RealRun:
         self.viol = []
         self.refused = 0     # blocks whose __enter__ raised
         self.shared_tape = None   # ctx "tapeR": one AdjointTape object re-entered sequentially
+        self.funcs = {}           # name -> function decorated by ("def", name, ctx, body)
         self.inv = inv       # probe kind -> {class name -> handler leaf}
 
     def run(self, prog):
@@ -268,6 +273,27 @@ class RealRun:
                 @cm
                 def f():
                     self.ex(p[2])
+                f()
+            finally:
+                self.block_check("decorated-call", before)
+        elif t == "def":
+            # decorator form, applied HERE (stack state S1); the function is called elsewhere (S2)
+            cm = self.make_ctx(p[2])
+            body = p[3]
+            before = tuple(STACK)
+            try:
+                @cm
+                def f():
+                    self.ex(body)
+                self.funcs[p[1]] = f
+            finally:
+                self.block_check("decoration", before)
+        elif t == "call":
+            before = tuple(STACK)
+            try:
+                f = self.funcs.get(p[1])
+                if f is None:
+                    raise ScopeError(p[1])
                 f()
             finally:
                 self.block_check("decorated-call", before)
